@@ -189,6 +189,13 @@ def impl(line: str) -> str:
                 f"limits={b(n.is_within_resource_limits)} sane={b(n.is_sane)} dup={b(n.has_duplicate_keys)}")
     if op == "str":
         return "ok " + str(from_tokens(t[1], t[2:]))
+    if op == "decode":
+        kh = {} if t[2] == "-" else {common.unhx(h): common.unhx(k) for h, k in (e.split(":") for e in t[2].split(","))}
+        try:
+            node = M.from_script(common.unhx(t[3]), t[1], kh)
+        except Exception as e:  # noqa: BLE001
+            return "err " + common.err_class(e)
+        return "ok " + " ".join(tokens(node))
     if op == "sat":
         n = from_tokens(t[1], t[7:])
         sigs = {} if t[2] == "-" else {common.unhx(k): common.unhx(v) for k, v in (e.split(":") for e in t[2].split(","))}
@@ -272,6 +279,36 @@ def _o_text(w):
     return same and str(back) == text, f"{text[:200]} re-parsed as {str(back)[:200]}"
 
 
+def mutate_script(rng, script: bytes) -> bytes:
+    """one op-code-aware edit of a compiled script (pushes stay whole unless the edit is about them)."""
+    from btclib.script.script import op_code_spans
+    spans = list(op_code_spans(script))
+    if not spans:
+        return script + b"\x51"
+    i = rng.randrange(len(spans))
+    op, a, b = spans[i]
+    r = rng.random()
+    ops = [0x00, 0x51, 0x52, 0x60, 0x63, 0x64, 0x67, 0x68, 0x69, 0x6b, 0x6c, 0x73, 0x76, 0x7c, 0x82, 0x87, 0x88, 0x92,
+           0x93, 0x9a, 0x9b, 0x9c, 0x9d, 0xa9, 0xac, 0xad, 0xae, 0xaf, 0xb1, 0xb2, 0xba, 0x75]
+    if r < 0.25:
+        return script[:a] + script[b:]
+    if r < 0.5:
+        return script[:a] + bytes([rng.choice(ops)]) + script[a:]
+    if r < 0.65:
+        return script[:a] + bytes([rng.choice(ops)]) + script[b:]
+    if r < 0.75 and 0x51 <= op <= 0x60:
+        return script[:a] + bytes([1, op - 0x50]) + script[b:]           # OP_n written as a 1-byte push
+    if r < 0.85 and op in (0x88, 0xad, 0xaf, 0x9d):
+        return script[:a] + bytes([op - 1, 0x69]) + script[b:]           # a VERIFY form written as two op codes
+    if r < 0.92:
+        j = rng.randrange(len(spans))
+        (_, a2, b2) = spans[j]
+        if b <= a2:
+            return script[:a] + script[a2:b2] + script[b:a2] + script[a:b] + script[b2:]
+        return script + script[a:b]
+    return script[:rng.randrange(len(script))]
+
+
 def mutate_text(rng, text: str) -> str:
     """one structural edit of an expression's text; long hex runs (keys, digests) are left whole."""
     import re
@@ -299,6 +336,22 @@ def _o_spend(w):
     return SP.oracle_spend(w)
 
 
+def _o_decoder_total(w):
+    """from_script refuses what is not a miniscript with the library's ValueError, and reads_back answers a bool."""
+    sc = bytes.fromhex(w["script"])
+    try:
+        M.from_script(sc, w["context"])
+    except BTClibValueError:
+        pass
+    except Exception as e:  # noqa: BLE001
+        return False, f"from_script({w['script']}) left through {type(e).__name__}: {e}"
+    try:
+        r = M.reads_back(sc, w["context"])
+    except Exception as e:  # noqa: BLE001
+        return False, f"reads_back({w['script']}) raised {type(e).__name__}: {e}"
+    return isinstance(r, bool), f"reads_back -> {r!r}"
+
+
 def _o_solver(w):
     """PSBT glue (descriptors.miniscript_solver / miniscript_sizer): what finalize() returns the engine accepts,
     the spend context is the transaction's own (nLockTime, nSequence, version), the sizer bounds the witness."""
@@ -306,7 +359,8 @@ def _o_solver(w):
     return SV.oracle_solver(w)
 
 
-ORACLES = {"size": _o_size, "readback": _o_readback, "text": _o_text, "spend": _o_spend, "solver": _o_solver}
+ORACLES = {"size": _o_size, "readback": _o_readback, "text": _o_text, "spend": _o_spend, "solver": _o_solver,
+           "decoder_total": _o_decoder_total}
 
 
 def ill_shaped(rng, toks: list[str], ctx: str) -> list[str]:
@@ -489,7 +543,7 @@ def run(ctx):
         ctx.count("context", n.context)
         for f, k in G.histogram(n).items():
             ctx.count("fragment", f, k)
-    lines = {"type": [], "size": [], "valid": [], "bounds": [], "script": [], "str": [], "parse": []}
+    lines = {"type": [], "size": [], "valid": [], "bounds": [], "script": [], "str": [], "parse": [], "decode": []}
     for n in nodes:
         tk = " ".join(tokens(n))
         lines["type"].append(f"type {n.context} {tk}")
@@ -498,6 +552,13 @@ def run(ctx):
         lines["bounds"].append(f"bounds {n.context} {tk}")
         lines["script"].append(f"script {n.context} {table(n)} {tk}")
         lines["str"].append(f"str {n.context} {tk}")
+        if n.is_valid and n.script_size <= 1200:
+            sc = n.script()
+            kh = key_hashes(n)
+            tb = ",".join(f"{h.hex()}:{k.hex()}" for h, k in sorted(kh.items())) or "-"
+            lines["decode"].append(f"decode {n.context} {tb} {hx(sc)}")
+            for _ in range(2):
+                lines["decode"].append(f"decode {n.context} {tb} {hx(mutate_script(rng, sc))}")
         text = str(n)
         if n.script_size > 1200:
             # the model's `allTyped` re-types every subtree (cubic in the depth): deep chains are read back on the
@@ -569,8 +630,36 @@ def run(ctx):
             if n.context == P2WSH and solver_left > 0:
                 solver_left -= 1
                 ctx.check("solver", w, nontrivial=bool(r.get("produced")))
+    # a multi() whose key count reads as a negative number: from_script indexes out of range (IndexError)
+    for hexs in ("5101e4ae", "000188ae"):
+        ctx.check("decoder_total", {"script": hexs, "context": P2WSH}, key="from_script.foreign_exception")
+    for ln in lines["decode"][:ctx.n(600, 12000)]:
+        t = ln.split(" ")
+        ctx.check("decoder_total", {"script": "" if t[3] == "_" else t[3], "context": t[1]})
     ctx.stream("exec", exec_lines)
     ctx.stream("sat", sat_lines, nontrivial=lambda line, out: out.startswith("ok"))
+    # BIP68: an older() is met from transaction version 2 only.  Every P2WSH expression with an older() is finalized
+    # (and satisfied) in a VERSION-1 transaction whose nSequence would meet it, every key and preimage available:
+    # what comes back must be a refusal or a witness the engine accepts.
+    v1 = 0
+    fixed = ["and_v(v:pk({k0}),older(36))", "or_d(pk({k0}),and_v(v:pk({k1}),older(144)))",
+             "andor(pk({k0}),older(4194305),pk({k1}))", "thresh(2,pk({k0}),s:pk({k1}),sln:older(50))"]
+    v1_nodes = [M.parse(f.format(k0=keys[0], k1=keys[1]), P2WSH) for f in fixed]
+    v1_nodes += [n for n in spend_nodes if n.context == P2WSH][:ctx.n(400, 8000)]
+    for n in v1_nodes:
+        olders = sorted({f.threshold for f in SP._tree_nodes(n) if f.fragment == "older"})
+        if not olders:
+            continue
+        text = str(n)
+        for seq in olders[:3]:
+            for version in (1, 2):
+                a = {"keys": list(range(SP.N_KEYS)), "preimages": list(range(SP.N_PRE)), "locktime": 0,
+                     "sequence": seq, "version": version}
+                w = {"expr": text, "context": P2WSH, "avail": a}
+                ctx.check("solver", w)
+                ctx.check("spend", w)
+                v1 += version == 1
+    ctx.count("solver", "version-1 with older()", v1)
     ctx.note("T3/T4 are partial: covered_constructors = 0, 1, pk_k, pk_h, sha256, hash256, ripemd160, hash160, c:, v:, "
              "a:, s:, n:, d:, and_v, and_b, or_b, or_c, or_d, or_i, andor (Props.C15.type_soundness_partial / "
              "satisfaction_accepted_partial); not covered: j: older after multi multi_a thresh, the satisfier's choice and "
